@@ -351,5 +351,20 @@ theorem insort_asc (limit : Nat → Nat) (lt : α → α → Bool) (ho : BisectO
   have h := bisectRight_spec lt ho x b hb hs
   exact pyInsert_asc lt hirr x _ _ hs h.2.1 h.2.2
 
+/-! ### the defect that was fixed (kept as a kernel-checked record; not part of the model) -/
+
+/-- `_translate_index` BEFORE the fix: without the `for … else` branch an index past the end came
+    back as offset `index - len(self)` of the last sub-list -/
+def translateUnfixed : List (List α) → Nat → Nat × Nat
+  | [], i => (0, i)
+  | [l], i => (0, if i < l.length then i else i - l.length)
+  | l :: l' :: ls, i =>
+    if i < l.length then (0, i)
+    else ((translateUnfixed (l' :: ls) (i - l.length)).1 + 1, (translateUnfixed (l' :: ls) (i - l.length)).2)
+
+/-- `insert` (several sub-lists) on top of the unfixed translation -/
+def insertUnfixed (ls : List (List α)) (i : Nat) (x : α) : List (List α) :=
+  ls.modify (translateUnfixed ls i).1 (pyInsert (translateUnfixed ls i).2 x)
+
 end Barrel
 end C10
